@@ -256,7 +256,9 @@ func main() {
 		if viol != nil || tape != nil {
 			d.Tape = &simrt.Tape{Program: prog.Out(), Schedule: sched.Out(), ProgramSpans: prog.Spans()}
 		}
-		if tracing {
+		if tracing && !sim.LibPanicked {
+			// (a cut-short run leaves tasks behind that were never joined: the
+			// arguments of their trace lines must not be read)
 			d.Trace = append(rc.extraTrace, sim.RenderTrace()...)
 		}
 		emit(d)
